@@ -3,7 +3,7 @@ import itertools
 from ..runner import Spec, Case
 from .. import core
 
-MUTATORS = ('assign', 'assigns', 'concat', 'concats', 'append', 'resize', 'clear', 'rem', 'rems', 'fmt', 'fmtl', 'print', 'pf', 'show', 'remi', 'fmtrej', 'pfrej')
+MUTATORS = ('assign', 'assignself', 'assigns', 'concat', 'concats', 'append', 'resize', 'clear', 'rem', 'rems', 'fmt', 'fmtl', 'print', 'pf', 'show', 'remi', 'fmtrej', 'pfrej')
 ESC = {7: b'\\a', 8: b'\\b', 12: b'\\f', 10: b'\\n', 13: b'\\r', 9: b'\\t', 11: b'\\v', 92: b'\\\\', 39: b"\\'", 34: b'\\"', 63: b'\\?'}
 
 def hx(b): return b.hex() if b else '-'
@@ -125,7 +125,9 @@ class Gen:
             r = rng.random()
             if r < 0.2: self.emit(f'new0 {k}'); self.txt[k] = b''
             elif r < 0.35 and self.txt: j = rng.choice(self.live()); self.emit(f'copy {k} {j}'); self.txt[k] = self.txt[j]
-            else: x = self.rtext(self.rlen()); self.emit(f'new {k} {hx(x)}'); self.txt[k] = x
+            else:
+                # one in five lives INSIDE an Array (allocation class AllocData): the same code reallocates its buffer
+                x = self.rtext(self.rlen()); self.emit(f"{'newin' if rng.random() < 0.2 else 'new'} {k} {hx(x)}"); self.txt[k] = x
             return
         k = rng.choice(self.live()); t = self.txt[k]; n = len(t)
         others = [j for j in self.live() if j != k]
@@ -134,6 +136,8 @@ class Gen:
             self.emit(f'del {k}'); del self.txt[k]
         elif r < 0.10:
             x = self.rtext(self.rlen()); self.emit(f'assign {k} {hx(x)}'); self.txt[k] = x
+        elif r < 0.11:
+            self.emit(f'assignself {k}')                                                # assign(s, s): a no-op since 744a45f
         elif r < 0.13 and others:
             j = rng.choice(others); self.emit(f'assigns {k} {j}'); self.txt[k] = self.txt[j]
         elif r < 0.30:
@@ -280,7 +284,7 @@ def mutation_to(rng, kind, T, al):
         return [f'assign 0 {hx(T[:cut] + junk)}', f'show 0 {cut} s{hx(body)}']
     if kind == 'pfrej': return None if (37 in T[cut:] or cut == n) else [f'assign 0 {hx(T[:cut] + junk)}', f'pfrej 0 {cut} {hx(T[cut:])}']
     if kind == 'unchanged':       # the refused calls leave the text alone: the hash after them is the hash before
-        return [f'assign 0 {hx(T)}', f'remi 0 {rng.choice([0, 7, -1, 2**40])}', f'fmtrej 0 {rng.choice([0, n])}'] + ([f'rem 0 {hx(T + b"a")}'])
+        return [f'assign 0 {hx(T)}', f'remi 0 {rng.choice([0, 7, -1, 2**40])}', 'assignself 0', f'fmtrej 0 {rng.choice([0, n])}'] + ([f'rem 0 {hx(T + b"a")}'])
     return None
 
 def hash_family(rng, tier):
@@ -376,9 +380,15 @@ class C16(Spec):
                   'Reading at a position (scan_from -> String_Format_From) sees exactly the abstract string from pos on (C16_read_at_position). '
                   'Operands: histories are over AOp, whose operands are by value, the target itself, or a view into the target\'s buffer, and every step '
                   'takes the allocator\'s choice (realloc moves the block or not); C16_refines_bytes / C16_terminated / C16_holds_for_current_source hold '
-                  'under the explicit hypothesis AOp.NoAlias for every allocator behaviour; for aliased operands rem / mem / cmp are by value '
-                  '(C16_alias_partial) and assign / concat / append / a %s write are undefined for both allocator behaviours (known finding '
+                  'under the explicit decidable hypothesis HistOK (every call AOp.InContract for the text at that moment) for every allocator behaviour: '
+                  'by-value operands; assign with the target itself or a view at offset 0 (early return of fix 744a45f, read from the source: '
+                  'C16_assign_self, C16_assign_self_current_source, old order refuted in C16_assign_self_old_refuted); rem with ANY operand form. '
+                  'The excluded calls — assign from a view at an offset > 0, concat / append / a %s write with the target or a view — are exactly the '
+                  'undefined ones for both allocator behaviours (C16_contract_is_exact; known finding '
                   'KF-C16-alias-operand; C16_alias_refuted, C16_alias_operand_refuted, C16_alias_always_undefined; repair proved in C16_alias_repaired). '
+                  'Allocation failure of String_Resize (realloc returns NULL) is an outcome of the model (resizeR): OutOfMemoryError before anything is '
+                  'written, the object left with val == NULL and the old block unreferenced (C16_resize_alloc_failure; the position of the test is read '
+                  'from the source, C16_resize_check_current_source; the order before 63509f2 is a NULL dereference, C16_resize_alloc_failure_old_refuted). '
                   'hash: C16_hash_is_murmur — String_Hash after any history is MurmurHash64A (seed 0xCe110) over exactly the bytes of the abstract '
                   'string, by composition with engine hash\'s (C10) proof about hash_data; the harness prints the library\'s hash value and the driver '
                   'the model\'s; C16_hash_test_vectors pins the model to the three values tests/test.c hard-codes and to values for lengths 8, 9, 16 '
@@ -391,10 +401,13 @@ class C16(Spec):
                   'libc str*/mem*/realloc/vsnprintf are modelled by their ISO C specification, not verified; hash_data is engine hash\'s model (C10: '
                   'MurmurHash64A), composed here in C16_hash_is_murmur and compared value by value with the library; size_t and the int arithmetic of '
                   'pos/size/return value are modelled as Nat (no allocation near SIZE_MAX, no text beyond INT_MAX). The history theorems carry the '
-                  'explicit decidable hypothesis AOp.NoAlias (no operand points into the target\'s own allocation); the excluded region is known '
-                  'finding KF-C16-alias-operand: modelled (Src.self / Src.view, realloc moving or not), proved undefined in all of it '
-                  '(C16_alias_always_undefined), refuted on witnesses (C16_alias_refuted, C16_alias_operand_refuted), and the proposed repair is '
-                  'proved to meet the full statement (C16_alias_repaired). pos > len / pos < 0 are outside the statement.')
+                  'explicit decidable hypothesis HistOK / AOp.InContract (assign: operand by value, the target, or a view at offset 0; concat / append / %s: '
+                  'operand by value; rem: any operand, a view starting inside the text); the excluded region is exactly known '
+                  'finding KF-C16-alias-operand: modelled (Src.self / Src.view, realloc moving or not), proved undefined in all of it and defined '
+                  'everywhere else (C16_contract_is_exact, C16_alias_always_undefined), refuted on witnesses (C16_alias_refuted, C16_alias_operand_refuted), '
+                  'and the proposed repair is proved to meet the full statement (C16_alias_repaired). Allocation failure is modelled for String_Resize only '
+                  '(the other functions test the result of realloc at the same place — pinned by the extracted shape — but their failing call is not an '
+                  'outcome of the model). pos > len / pos < 0 are outside the statement.')
     rule = ('op files over up to 4 heap Strings: (a) exhaustive: every target over {a,b} up to length 4 (quick) / 5 (thorough) x every operand up to '
             'length 3 / 4 for rem, mem, cmp, eq; (b) random histories over the alphabets {a,b}, {a,b,c}, printable, all 255 byte values, operands chosen '
             'relative to the current text: empty, equal, at the start, middle, end, repeated/overlapping, near miss, longer than the target, absent; '
@@ -403,10 +416,12 @@ class C16(Spec):
             '%s %c %d %i %u %x %X %o with flags, width, precision, l, %$ of Int / String / nested Tuples, several in sequence, unused extra arguments, '
             'the empty format), show_to, and scan_from of a word at a position. After every op the whole allocation (size, all bytes) is compared '
             'with the Lean model and the text with a libc reference; (f) rem / mem / cmp with the target itself and with views $S(c_str(s)+k) into it '
-            '(forked child; by-value libc reference); the hash VALUE is compared with the model of hash_data AND judged by the harness\'s own MurmurHash64A; '
+            'and assign with the target itself / the view at offset 0 (forked child; by-value libc reference), assign(s, s) inside histories (op assignself); (j) resize '
+            'whose realloc fails (injected NULL, forked child): OutOfMemoryError expected; the hash VALUE is compared with the model of hash_data AND judged by the harness\'s own MurmurHash64A; '
             '(g) every length 0..40, 47-49, 63-65 and longer ones up to 4096 x every kind of mutation (new, assign, assigns, copy, concat, append, concats, resize, '
             'rem, rems, fmt, fmtl, print, pf, show, pfrej, refused calls) over printable / >= 0x80 / control / all bytes, each followed by hash, plus per length '
             'texts differing in one byte (first, last, either side of the last 8-byte boundary); lengths 7 8 9 15 16 17 23 24 25 31 32 33 are favoured in (b),(c); '
+            '(k) one in five targets of (b),(c) is a String that lives inside an Array (class AllocData; op newin); '
             '(h) at one position of otherwise equal texts every ordered pair of control / ASCII / 0x7f / >= 0x80 bytes and each against the terminator, through '
             'cmp, eq, mem and cmps; (i) one text doubled up to 65536 bytes, then 65537 and 65535. non-trivial item = a mutating op on a live String; distinct = distinct '
             '(op text, resulting dump) pairs.')
@@ -420,12 +435,17 @@ class C16(Spec):
                     'lean/Cello/Hash.lean + CelloGen/Hash.lean (engine hash, C10): the model of hash_data that C16_hash_is_murmur composes with, imported read-only',
                     'C `int` (pos, size, return values) and `size_t` as Nat; the preprocessor branch taken (neither CELLO_WINDOWS nor CELLO_MAC) is the one g_str.py extracts',
                     'AddressSanitizer reports the exact requested size of an allocation and every out-of-bounds access')
-    assumptions = ('operands are C strings (no NUL); generated histories pass them by value (another object, never the target or a view into its buffer): '
-                   'assign / concat / append / print_to "%s" with an operand inside the target\'s own allocation is known finding KF-C16-alias-operand '
-                   '(witness corpus/kf_c16_alias.ops, modelled, never generated); aliased rem / mem / cmp make no realloc and ARE generated and checked by value; '
-                   'aliased mutators on an EMPTY target (one NUL copied onto itself: undefined on paper only) are not run',
+    assumptions = ('operands are C strings (no NUL); generated histories pass them by value (another object) or, for assign, as the target itself: '
+                   'assign from a view at an offset > 0 / concat / append / print_to "%s" with an operand inside the target\'s own allocation is known finding '
+                   'KF-C16-alias-operand (witness corpus/kf_c16_alias.ops, modelled, never generated); aliased rem / mem / cmp make no realloc and assign(s, s) / '
+                   'assign(s, $S(c_str(s))) return at once (744a45f): they ARE generated and checked by value; '
+                   'aliased concat / append / print / show on an EMPTY target (one NUL copied onto itself: undefined on paper only) are not run',
+                   'resize(s, n) with n > len reserves room: the code zeroes val[len..n-1] and does not write val[n], the last byte of the new block (mirrored by the '
+                   'model: that byte is whatever realloc handed out); harmless for every operation of the property because val[len] is 0, but a caller who then fills '
+                   'c_str(s)[0..n) by hand has no terminator — writing through c_str is outside the statement and never generated',
                    'formatted writes at 0 <= pos <= len; pos > len is modelled (text unchanged) but outside the property; negative pos is undefined behaviour and never generated',
-                   'lengths up to 4096 in the correspondence, one history per run up to 65537 (theorems have no bound); no allocation failure; size_t arithmetic does not wrap; '
+                   'lengths up to 4096 in the correspondence, one history per run up to 65537 (theorems have no bound); no allocation failure inside histories (a failing realloc '
+                   'is exercised for String_Resize alone, on a fresh String: op `oom resize`; after it the object holds val == NULL and is not used again); size_t arithmetic does not wrap; '
                    '`int pos`, `int size = vsnprintf(…)`, the `int` returned by format_to / print_to and `pos + size + 1` computed in int before it is widened '
                    'for realloc (String.c String_Format_To, Show.c print_to_with) are modelled as Nat: no text, position or formatted fragment beyond INT_MAX (2^31-1)',
                    'only the portable branch of String_Format_To is modelled and exercised (#else of CELLO_WINDOWS / CELLO_MAC). Not modelled: the CELLO_WINDOWS '
@@ -480,9 +500,10 @@ class C16(Spec):
             # start long
             x = g.rtext(rng.choice([1000, 4000, 4096])); g.emit(f'new 0 {hx(x)}'); g.txt[0] = x
             cs.append(Case(f'long{i}', g.run(nops)))
-        # (f) operands that point into the target's own buffer, for the calls that make no realloc (rem, mem, cmp): the target itself
-        # and views at the start / inside / at the terminator, incl. a suffix that also occurs earlier.  The aliased assign / concat /
-        # append / print_to are known finding KF-C16-alias-operand (witness corpus/kf_c16_alias.ops) and are never generated.
+        # (f) operands that point into the target's own buffer, for the calls the code defines there: rem, mem, cmp (no realloc) with the
+        # target itself and views at the start / inside / at the terminator, incl. a suffix that also occurs earlier; assign with the
+        # target itself and the view at offset 0 (c_str(obj) is s->val: early return, 744a45f).  assign from a view at an offset > 0 and
+        # the aliased concat / append / print_to are known finding KF-C16-alias-operand (witness corpus/kf_c16_alias.ops), never generated.
         texts = [b'', b'a', b'ab', b'abab', b'aaa', b'abcabc', b'hello world', b'a' * 40]
         for i in range(4 if quick else 40):
             al = self.ALPHABETS[i % len(self.ALPHABETS)]
@@ -493,7 +514,15 @@ class C16(Spec):
             for w in ('rem', 'mem', 'cmp'):
                 lines.append(f'alias {w} self {hx(t)}')
                 lines += [f'alias {w} v{o} {hx(t)}' for o in offs]
+            lines += [f'alias assign self {hx(t)}', f'alias assign v0 {hx(t)}']
         cs.append(Case('alias_readonly', lines))
+        # (j) resize whose realloc fails (returns NULL, old block untouched): growing / shrinking / same size / to 0 / huge (63509f2)
+        lines = []
+        for t in texts[:12]:
+            n = len(t)
+            for m in sorted({0, 1, max(0, n - 1), n, n + 1, n + rng.randrange(2, 100), rng.randrange(0, 1000000)}):
+                lines.append(f'oom resize {hx(t[:512])} {m}')
+        cs.append(Case('oom_resize', lines))
         # (g) the hash VALUE at every length 0..40 (+ longer) after every kind of mutation, and one-byte neighbours of equal length;
         # (h) the byte order of cmp / eq / mem at one position: control, ASCII, 0x7f, >= 0x80, terminator
         for r in range(boost if boost > 1 else 1):
